@@ -14,7 +14,7 @@ from mzverif.core import Sub, Violation, call, require
 
 ID = "C02"
 LEVEL = "exploration"
-TECHNIQUE = "exhaustive enumeration (all graphs <= 3x3 x all ordered cell pairs) + Hypothesis graphs up to 12x12/30x30; oracle = independent BFS model (validity predicate, not a single expected path)"
+TECHNIQUE = "exhaustive enumeration (all graphs <= 3x3 x all ordered cell pairs) + Hypothesis graphs up to 12x12/30x30 + query sequences on one maze object (results overwritten by the caller, equal mazes rebuilt) + generator output with its metadata (every ordered pair); oracle = independent BFS model (validity predicate, not a single expected path)"
 RULE = (
     "case = (connection bits, start, end[, arg form, entry point]). Exhaustive part: every graph on every shape <=3x3 "
     "times every ordered pair of cells; random part: mixture of arbitrary / tree+extra-edges / forest graphs. "
